@@ -499,7 +499,8 @@ class Sharded:
         self.exe, self.argv_fn, self.total = exe, argv_fn, total
         self.env = env or san_env()
         self.chunk = chunk or max(1, (total + NCPU * 4 - 1) // (NCPU * 4))
-        self.timeout, self.case_timeout, self.max_restarts, self.tag = timeout, case_timeout, max_restarts, tag
+        wds = max(1, int(os.environ.get('VERIF_WD_SCALE', '1')))       # bin/reach only: the gcov-instrumented build is much slower
+        self.timeout, self.case_timeout, self.max_restarts, self.tag = timeout * wds, case_timeout * wds, max_restarts, tag
         self.viols = []     # (key, text, case)
         self.stats = []
         self.crashes = []   # (case, key, report)
